@@ -282,7 +282,35 @@ func C11(p *Prog, r *Run) {
 			r.Check(ct.Args[0].String() == "recv.ControlGenes[*].ControlNode" && ct.Args[1].String() == "recv.ControlGenes[*].ControlNode.Trait", "Genesis.module.copy", p.Pos(c.Pos()), "copy of the module's control node", "the control node is copied from "+ct.Args[0].String())
 			// appended to the control list handed to NewModularNetwork
 			app := false
-			if ph, ok := mod[3].(*ssa.Phi); ok {
+			if cV := c11ListVarOf(gen, locals, loops, mod[3]); cV != nil {
+				// the list is carried by a loop (in whatever way the loop is written, and wherever in the iteration
+				// the append stands): every iteration that builds the control node leaves the list as
+				// append(<list at the start of the iteration>, node), every other iteration leaves it alone
+				cpaths, _ := EnumIterPaths(gen, cV.loop, 200)
+				r.PathsExplored += len(cpaths)
+				nMade := 0
+				app = true
+				for _, ip := range cpaths {
+					if ip.End != "back" {
+						continue
+					}
+					changed, okApp := cV.appended(ip, c.Value())
+					if ip.OnPath(c) {
+						nMade++
+						app = app && changed && okApp
+					} else if changed {
+						// another control node's iteration: its own instance of the rule decides it
+						other := false
+						for _, c2 := range CallsTo(gen, nnCopy) {
+							if c2 != c && ip.OnPath(c2) {
+								other = true
+							}
+						}
+						app = app && other
+					}
+				}
+				app = app && nMade > 0
+			} else if ph, ok := mod[3].(*ssa.Phi); ok {
 				for _, e := range ph.Edges {
 					if _, elems, isApp := appendCall(e); isApp && len(elems) == 1 && elems[0] == c.Value() {
 						app = true
@@ -567,22 +595,22 @@ func C11(p *Prog, r *Run) {
 			tf := NewTermer(fn)
 			lk := newC11Lookup(fn, tf, nw)
 			okE := false
-			for _, b := range fn.Blocks {
-				if ret, ok := b.Instrs[len(b.Instrs)-1].(*ssa.Return); ok {
-					isEmpty := false
-					if mi, ok := ret.Results[0].(*ssa.MakeInterface); ok {
-						if c, ok := mi.X.(*ssa.Const); ok {
-							if nt, ok := c.Type().(*types.Named); ok && nt.Obj().Pkg() != nil && nt.Obj().Pkg().Path() == "gonum.org/v1/gonum/graph" {
-								isEmpty = true // the constant graph.Empty
-							}
+			// one result per return instruction, or per edge entering a return block that several results share
+			// (the body moved into a new helper and inlined again: robust_c11.go, c11Results)
+			for _, res := range c11Results(fn, 0) {
+				isEmpty := false
+				if mi, ok := res.v.(*ssa.MakeInterface); ok {
+					if c, ok := mi.X.(*ssa.Const); ok {
+						if nt, ok := c.Type().(*types.Named); ok && nt.Obj().Pkg() != nil && nt.Obj().Pkg().Path() == "gonum.org/v1/gonum/graph" {
+							isEmpty = true // the constant graph.Empty
 						}
 					}
-					if isEmpty {
-						for _, gd := range Guards(b) {
-							// the lookup found nothing: `node == nil` taken, or `node != nil` not taken, either operand order
-							if lk.absent(gd) {
-								okE = true
-							}
+				}
+				if isEmpty {
+					for _, gd := range res.conds {
+						// the lookup found nothing: `node == nil` taken, or `node != nil` not taken, either operand order
+						if lk.absent(gd) {
+							okE = true
 						}
 					}
 				}
